@@ -125,8 +125,12 @@ def project_by_label(full, all_letters, keep):
 def build_lm(fd, cfg, dims=None):
     cls = getattr(fd, cfg["model"])
     kw = {}
+    form = cfg.get("param_form", "labelled")
     for pn, (pl, pdims, vals) in cfg["given"].items():
-        if not pl:
+        if form in ("ndarray", "list"):
+            full = np.array(cfg["truth"][pn], dtype=float)  # a plain array of the model's shape carries no labels: position = label
+            kw[pn] = full if form == "ndarray" else full.tolist()
+        elif not pl:
             kw[pn] = float(np.asarray(vals))
         else:
             kw[pn] = fd.FlodymArray(dims=fd.DimensionSet(dim_list=list(pdims)), values=np.array(vals, dtype=float))
@@ -134,6 +138,9 @@ def build_lm(fd, cfg, dims=None):
 
 
 def driver_values(rng, shape, kind="positive"):
+    if kind.startswith("scaled:"):
+        # the same kinds at another order of magnitude (results are compared relatively, so magnitude must not matter)
+        return driver_values(rng, shape, kind.split(":", 1)[1]) * 10.0 ** float(rng.integers(-12, 4))
     if kind == "positive":
         v = rng.uniform(0.0, 100.0, size=shape)
         if v.size > 3 and rng.random() < 0.5:
@@ -232,7 +239,7 @@ def c10_case(rec, hub, rng, tier):
             rec.violation(M10, f"{mech}:{cfg['gclass']}-grid", dict(model=cfg["model"], time_items=cfg["items"][:12], rel_diff=rel, tol=tol, kappa=kappa, what=what, **w))
 
     with quiet():
-        x = driver_values(rng, cfg["shape"], "positive")
+        x = driver_values(rng, cfg["shape"], "positive" if rng.random() < 0.7 else "scaled:positive")
         idm = make_stock(fd, cfg, "InflowDrivenDSM", lm=lm, inflow=x)
         idm.compute()
         R = S.results_of(idm)
@@ -247,7 +254,7 @@ def c10_case(rec, hub, rng, tier):
                 cmp(tag + ":stock_by_cohort", Q["stock_by_cohort"], R["stock_by_cohort"], "stock-driven-stock-by-cohort-differs", scale=max(float(np.max(np.abs(R["stock"]))), 1e-300))
                 cmp(tag + ":outflow_by_cohort", Q["outflow_by_cohort"], R["outflow_by_cohort"], "stock-driven-outflow-by-cohort-differs", scale=max(float(np.max(np.abs(x))), 1e-300))
         # arbitrary stock -> inflow -> stock
-        pres = driver_values(rng, cfg["shape"], str(rng.choice(["stock", "growing"])))
+        pres = driver_values(rng, cfg["shape"], str(rng.choice(["stock", "growing", "scaled:growing"])))
         res = {}
         for solver in ("manual", "lapack"):
             sd = make_stock(fd, cfg, "StockDrivenDSM", solver=solver, lm=build_lm(fd, cfg), stock=pres)
